@@ -17,11 +17,13 @@ MkU(rank, fav, hint, ex2) ==
                [name |-> 2, known |-> TRUE, reqs |-> << <<1, 2>> >>, cons |-> <<>>] >>,
    vs |-> << [name |-> 1, match |-> <<1, 3>>],
              [name |-> 1, match |-> <<>>],
-             [name |-> 2, match |-> IF ex2 THEN <<4>> ELSE <<>>] >>,
+             [name |-> 2, match |-> IF ex2 THEN <<4>> ELSE <<>>],
+             [name |-> 1, match |-> <<1, 2, 3>>] >>,
    idmap |-> [solv |-> <<>>, name |-> <<>>, vs |-> <<>>]]
 
 Ranks == IF Family = "quick" THEN {<<3, 1, 2>>} ELSE {<<1, 2, 3>>, <<3, 1, 2>>, <<2, 3, 1>>}
-Favs  == IF Family = "quick" THEN {0, 1} ELSE {0, 1, 2, 3}
+\* quick: the favored candidate is ranked last of three (it moves over two others)
+Favs  == IF Family = "quick" THEN {0, 2} ELSE {0, 1, 2, 3}
 Hints == {NoHint, [mode |-> "all", list |-> <<>>], [mode |-> "some", list |-> <<2>>]}
 Ex2   == IF Family = "quick" THEN {TRUE} ELSE {TRUE, FALSE}
 Universes == {MkU(r, f, h, e) : r \in Ranks, f \in Favs, h \in Hints, e \in Ex2}
@@ -29,7 +31,7 @@ Universes == {MkU(r, f, h, e) : r \in Ranks, f \in Favs, h \in Hints, e \in Ex2}
 \* the query alphabet
 QMatch == {1, 2}
 QNon   == {1}
-QReqs  == {<<1>>, <<1, 3>>}
+QReqs  == {<<1>>, <<1, 3>>, <<4>>}
 QDepS  == {1}
 
 VARIABLE started
